@@ -191,11 +191,13 @@ type holding struct {
 type ackRec struct {
 	ip    netip.Addr
 	until time.Duration
+	mac   fb.MAC // the hardware address the acknowledgement went to
 }
 
 type offerRec struct {
 	ip  netip.Addr
 	xid [4]byte
+	mac fb.MAC
 }
 
 type reqInfo struct {
@@ -507,12 +509,11 @@ func runDHCPCore(e *exec, onAck func(d *dhcpRun, ri *reqInfo, y netip.Addr)) *dh
 			cid := string(id)
 			victim := a.ident[1]
 			// Two devices under one identifier: whichever way the server resolves it, the lease on
-			// record for that identifier is in doubt, so nothing is owed to it any more. What remains
-			// owed is to everybody else: the second device must not be handed what the session
-			// tracks for the first.
-			d.endHolding(cid, "the same client id arrived from another MAC")
-			delete(d.lastAck, cid)
-			delete(d.offers, cid)
+			// record for that identifier is in doubt, so the holder table owes it nothing any more
+			// (the liberal record of its last acknowledgement stays: the server may keep the lease).
+			// What remains owed is to everybody else: the second device must not be handed what
+			// the session tracks for the first.
+			d.endHolding(cid, "the same client id arrived from another MAC") // conservative table only: the server may as well keep the lease
 			bi := b.ident[1]
 			bi.xid++
 			var xid [4]byte
@@ -716,10 +717,14 @@ func (d *dhcpRun) checkReply(ri *reqInfo, dh *refdec.DHCP, f *refdec.Frame, u *w
 	}
 	if reserved == "tracked-for-other-mac" {
 		// distinguish the server confirming the client's own unexpired lease from a fresh allocation
-		if cur, ok := d.lastAck[ri.cid]; ok && cur.ip == y && now <= cur.until {
+		if cur, ok := d.lastAck[ri.cid]; ok && cur.ip == y && now <= cur.until && cur.mac == ri.mac {
 			reserved += ":clients-own-lease"
-		} else if of, ok := d.offers[ri.cid]; ok && of.ip == y {
+		} else if of, ok := d.offers[ri.cid]; ok && of.ip == y && of.mac == ri.mac {
 			reserved += ":address-already-on-offer-to-this-client"
+		} else if cur, ok := d.lastAck[ri.cid]; ok && cur.ip == y && now <= cur.until {
+			// the identifier's lease, but it was acknowledged to another hardware address: this
+			// device is handed what belongs to (and is tracked for) the other one
+			reserved += ":lease-of-this-client-id-acknowledged-to-another-mac"
 		} else {
 			reserved += ":new-allocation"
 		}
@@ -769,7 +774,7 @@ func (d *dhcpRun) checkReply(ri *reqInfo, dh *refdec.DHCP, f *refdec.Frame, u *w
 		if ri.typ != 1 {
 			d.violate("C12.type", "offer-to-request", "OFFER in reply to a REQUEST")
 		}
-		d.offers[ri.cid] = offerRec{ip: y, xid: ri.xid}
+		d.offers[ri.cid] = offerRec{ip: y, xid: ri.xid, mac: ri.mac}
 		if c != nil && !lost {
 			c.offer = y
 			c.offerXID = ri.xid
@@ -811,7 +816,7 @@ func (d *dhcpRun) checkReply(ri *reqInfo, dh *refdec.DHCP, f *refdec.Frame, u *w
 	}
 	d.endHolding(ri.cid, "ACK of a (possibly different) address")
 	d.hold[y] = holding{cid: ri.cid, until: now + lease}
-	d.lastAck[ri.cid] = ackRec{ip: y, until: now + lease}
+	d.lastAck[ri.cid] = ackRec{ip: y, until: now + lease, mac: ri.mac}
 	delete(d.offers, ri.cid)
 	if c != nil && !lost {
 		c.lease = y
